@@ -142,8 +142,11 @@ def _wrap_einsum_from_ctx(expr: Array,
 def _can_hlo_be_distributed(hlo: HighLevelOp) -> bool:
     from pytato.raising import BinaryOp, BinaryOpType
     return (isinstance(hlo, BinaryOp)
-            and ((hlo.binary_op in [BinaryOpType.MULT, BinaryOpType.TRUEDIV]
+            and ((hlo.binary_op == BinaryOpType.MULT
                   and (np.isscalar(hlo.x1) or np.isscalar(hlo.x2)))
+                 # only division *by* a scalar is linear in the array operand
+                 or (hlo.binary_op == BinaryOpType.TRUEDIV
+                     and np.isscalar(hlo.x2))
                  or (hlo.binary_op in [BinaryOpType.ADD, BinaryOpType.SUB]
                      and isinstance(hlo.x1, Array)
                      and isinstance(hlo.x2, Array)
